@@ -121,8 +121,21 @@ def execute(case, prefix, collect=None):
         sched.log.append(('init', N.current_cache(node)))
         sched.begin()
         t1 = schedx.Thread(target=N.run_handler(node, sock), name='handler')
-        t2 = schedx.Thread(target=lambda: [N.driver_op(node, op) for op in case['ops']] + [done.append(1)], name='driver')
+        ndrivers = 2 if case.get('ops2') else 1
+        fin = []
+
+        def driver(ops):
+            def run():
+                for op in ops:
+                    N.driver_op(node, op)
+                fin.append(1)
+                if len(fin) == ndrivers:
+                    done.append(1)
+            return run
+        t2 = schedx.Thread(target=driver(case['ops']), name='driver')
         ts = [t1, t2]
+        if case.get('ops2'):
+            ts.append(schedx.Thread(target=driver(case['ops2']), name='driver2'))
         if case.get('script2'):
             sock2 = N.CoopSock(sched, 'c2', [(l + '\n').encode() for l in case['script2']],
                                eof_when=(lambda: bool(done)) if hold2 else None)
@@ -352,6 +365,13 @@ def cases(tier):
                          ('param-vs-module', ['activate m:value'], ['activate m'])]:
         res.append({'name': f'eof-vs-activate:{name}/value2/line', 'script': s1, 'script2': s2, 'ops': OPS['value2'],
                     'observer': False, 'eof_race': True, 'level': 'line', 'bound': 1 if tier == 'quick' else 2})
+    # two driver threads updating the same parameter (a poll thread and an asynchronous device callback)
+    for sname in (['global-stay', 'param-deact'] if tier == 'quick' else ['global-stay', 'param-deact', 'module-deact', 'global-ident']):
+        res.append({'name': f'{sname}/two-drivers', 'script': SCRIPTS[sname], 'ops': [['assign', 'm', 'value', 1.5]],
+                    'ops2': [['assign', 'm', 'value', 2.5], ['assign', 'm', 'x', 7]], 'observer': sname == 'global-stay', 'level': 'sync',
+                    'bound': 2 if tier == 'quick' else 3})
+        res.append({'name': f'{sname}/two-drivers/line', 'script': SCRIPTS[sname], 'ops': [['assign', 'm', 'value', 1.5]],
+                    'ops2': [['assign', 'm', 'value', 2.5]], 'observer': False, 'level': 'line', 'bound': 1 if tier == 'quick' else 2})
     # line level in the dispatcher / funnel
     line_scripts = ['global-deact', 'param-deact-by-module', 'global-ident', 'module-eof'] if tier == 'quick' else list(SCRIPTS)
     for sname in line_scripts:
@@ -365,7 +385,7 @@ def explore_case(case, prefix, part):
     from vf.engines import schedx
     from vf.harness import nodeconc as N
     if case['level'] == 'line':
-        schedx.trace_lines(N.line_functions(1))
+        schedx.trace_lines(N.all_dispatcher_functions())
     else:
         schedx.untrace_all()
     fingerprints = set()
@@ -410,7 +430,7 @@ def root_fn(case):
     from vf.engines import schedx
     from vf.harness import nodeconc as N
     if case['level'] == 'line':
-        schedx.trace_lines(N.line_functions(1))
+        schedx.trace_lines(N.all_dispatcher_functions())
     else:
         schedx.untrace_all()
     x1, _v1, s1 = execute(case, [])
@@ -457,7 +477,7 @@ def sub_fn(shard):
         from vf.engines import schedx
         from vf.harness import nodeconc as N
         if case['level'] == 'line':
-            schedx.trace_lines(N.line_functions(1))
+            schedx.trace_lines(N.all_dispatcher_functions())
         else:
             schedx.untrace_all()
         x, viol, sched = execute(case, [])
@@ -480,7 +500,7 @@ def replay(case):
     from vf.harness import nodeconc as N
     part = core.Part()
     if case['level'] == 'line':
-        schedx.trace_lines(N.line_functions(1))
+        schedx.trace_lines(N.all_dispatcher_functions())
     x, viol, sched = execute(case, case['prefix'])
     part.evaluations = 1
     for sig, detail in viol:
